@@ -15,9 +15,90 @@ import (
 
 type Locker = sync.Locker
 type Map = sync.Map
-type Cond = sync.Cond
 
-func NewCond(l Locker) *Cond { return sync.NewCond(l) }
+// Cond --------------------------------------------------------------------------
+//
+// Wait releases L, waits (a scheduling point that is enabled once a Signal / Broadcast has picked this waiter)
+// and takes L again. Waiters are woken in the order in which they began to wait (sync.Cond promises no order;
+// this is one legal behaviour). The wake-up itself travels over a real channel so that Signal -> Wait stays
+// visible to the race detector.
+
+type Cond struct {
+	L       Locker
+	once    sync.Once
+	real    *sync.Cond
+	waiters []*condTicket
+}
+
+type condTicket struct {
+	woken bool
+	ch    chan struct{}
+}
+
+func NewCond(l Locker) *Cond { return &Cond{L: l} }
+
+func (c *Cond) plain() *sync.Cond {
+	c.once.Do(func() { c.real = sync.NewCond(c.L) })
+	return c.real
+}
+
+//go:norace
+func (c *Cond) enqueue() *condTicket {
+	t := &condTicket{ch: make(chan struct{}, 1)}
+	c.waiters = append(c.waiters, t)
+	return t
+}
+
+//go:norace
+func (c *Cond) wake(all bool) []*condTicket {
+	n := len(c.waiters)
+	if n > 1 && !all {
+		n = 1
+	}
+	out := c.waiters[:n:n]
+	c.waiters = c.waiters[n:]
+	for _, t := range out {
+		t.woken = true
+	}
+	return out
+}
+
+//go:norace
+func (t *condTicket) isWoken() bool { return t.woken }
+
+func (c *Cond) Wait() {
+	if !vsched.Active() {
+		c.plain().Wait()
+		return
+	}
+	t := c.enqueue()
+	c.L.Unlock()
+	vsched.Point("cond.wait", uintptr(unsafe.Pointer(c)), t.isWoken)
+	<-t.ch
+	c.L.Lock()
+}
+
+func (c *Cond) Signal() {
+	if !vsched.Active() {
+		c.plain().Signal()
+		return
+	}
+	vsched.Point("cond.signal", uintptr(unsafe.Pointer(c)), nil)
+	for _, t := range c.wake(false) {
+		t.ch <- struct{}{}
+	}
+}
+
+func (c *Cond) Broadcast() {
+	if !vsched.Active() {
+		c.plain().Broadcast()
+		return
+	}
+	vsched.Point("cond.broadcast", uintptr(unsafe.Pointer(c)), nil)
+	for _, t := range c.wake(true) {
+		t.ch <- struct{}{}
+	}
+}
 
 // Pool --------------------------------------------------------------------------
 //
@@ -285,4 +366,23 @@ func (o *Once) Do(f func()) {
 func OnceFunc(f func()) func() {
 	var o Once
 	return func() { o.Do(f) }
+}
+
+func OnceValue[T any](f func() T) func() T {
+	var o Once
+	var v T
+	return func() T {
+		o.Do(func() { v = f() })
+		return v
+	}
+}
+
+func OnceValues[T1, T2 any](f func() (T1, T2)) func() (T1, T2) {
+	var o Once
+	var v1 T1
+	var v2 T2
+	return func() (T1, T2) {
+		o.Do(func() { v1, v2 = f() })
+		return v1, v2
+	}
 }
